@@ -1,10 +1,13 @@
-/* unit json_compact_encoder: basic_compact_json_encoder::visit_* - the comma/colon/bracket bookkeeping of the compact JSON encoder against the RFC 8259
+/* unit json_pretty_encoder: basic_json_encoder::visit_* (the pretty-printing encoder) - its comma/colon/bracket bookkeeping; line breaks and indentation are white space between tokens (VX_WS) and change nothing, against the RFC 8259
  * structural grammar (sections 2-5), proved per operation with a representation invariant (DESIGN 5.4), hence for all event histories */
 #include "vx_common.h"
 #include "model_stack.h"
 enum { container_type_object = 0, container_type_array = 1 };
 /*@ENUM json_errc@*/
-struct compact_encoder { int nesting_depth_; int max_nesting_depth_; };
+/*@ENUM line_split_kind@*/
+/* new_line(), break_line(), indent(), unindent(): they write line breaks and spaces only (site check) - white space between tokens */
+static unsigned vx_ws; static void VX_WS(void) { vx_ws++; }
+struct pretty_encoder { int nesting_depth_; int max_nesting_depth_; };
 /* ---- S-JSONTXT: push-down monitor over the output tokens; of its stack only the top frame is kept (kind, state), the frame below the top is
  * described by the ghost vx_below_kind: frames below the top are not touched by any operation (frame rule), so the invariant is inductive per frame */
 enum { K_ROOT = 0, K_ARRAY = 1, K_OBJECT = 2 };
@@ -45,9 +48,11 @@ static void VX_TOK(char c)
     && (vx_m_kind == K_ROOT ==> (vx_m_st == S_EMPTY || vx_m_st == S_AFTER_VALUE)) \
     && (vx_m_kind == K_ARRAY ==> ((vx_m_st == S_EMPTY && vx_top.index_ == 0) || (vx_m_st == S_AFTER_VALUE && vx_top.index_ > 0))) \
     && (vx_m_kind == K_OBJECT ==> ((vx_m_st == S_EMPTY && vx_top.index_ == 0) || (vx_m_st == S_AFTER_VALUE && vx_top.index_ > 0) || vx_m_st == S_AFTER_COLON)))
+/*@FUNC begin_scalar_value@*/
+/*@FUNC end_value@*/
 /*@GROUP visits@*/
 #ifdef VX_CBMC
-static struct compact_encoder vx_e; static int vx_ec;
+static struct pretty_encoder vx_e; static int vx_ec;
 static void setup(void)
 {
     vx_e.nesting_depth_ = nondet_int(); vx_e.max_nesting_depth_ = nondet_int();
